@@ -48,5 +48,13 @@ SmallLoops == { For("int", "i", [t |-> "range", a |-> 0, b |-> 2, c |-> 0, hasc 
                 For("float", "x", [t |-> "vals", br |-> "none", xs |-> <<F(1, 2), F(3, 2)>>], <<Stmt("R", TRUE, <<Var("x")>>, <<Kw("p", Var("x"))>>, <<I(0)>>, "none")>>),
                 For("str", "s", [t |-> "vals", br |-> "par", xs |-> <<[t |-> "str", s |-> "a"]>>], <<Stmt("T", TRUE, <<Var("s")>>, <<>>, <<I(0)>>, "none")>>) }
 Mixed == Plain \cup SmallLoops
+\* the same loop (same variable, same body text) run again over overlapping values after what its body reads was declared again
+BodyK == <<Stmt("K", TRUE, <<[t |-> "idx", x |-> "A", e |-> Var("i")], Var("c")>>, <<Kw("l", [t |-> "lst", xs |-> <<Var("i"), I(9)>>])>>, <<I(1)>>, "par")>>
+Again == { For("int", "i", [t |-> "range", a |-> 0, b |-> 2, c |-> 0, hasc |-> FALSE], BodyK),
+           For("int", "i", [t |-> "vals", br |-> "sq", xs |-> <<I(1), I(3)>>], BodyK),
+           For("float", "i", [t |-> "vals", br |-> "sq", xs |-> <<I(1)>>], <<Stmt("R", TRUE, <<Var("i")>>, <<Kw("p", Var("c"))>>, <<I(0)>>, "none")>>),
+           For("int", "i", [t |-> "vals", br |-> "none", xs |-> <<I(1), I(2)>>], <<Stmt("R", TRUE, <<Var("i")>>, <<Kw("p", Var("c"))>>, <<I(0)>>, "none")>>),
+           [t |-> "var", ty |-> "float", x |-> "c", e |-> F(3, 2)],
+           [t |-> "arr", ty |-> "int", x |-> "A", shape |-> <<>>, rows |-> << <<I(9), I(8)>>, <<I(7), I(6)>> >>] }
 EmitU == Over => PrintT(<<"CASE", ToJson([s |-> script, out |-> S.res, un |-> IF CanUnroll(script) THEN Unroll(script) ELSE [none |-> TRUE]])>>)
 =============================================================================
